@@ -20,6 +20,9 @@ func main() {
 	if v := os.Getenv("VERIF_DIR"); v != "" {
 		verifDir = v
 	}
+	if v := os.Getenv("KV_REPO"); v != "" {
+		repoDir = v
+	}
 	fs := flag.NewFlagSet("kv", flag.ExitOnError)
 	workers := fs.Int("j", defaultWorkers(), "workers")
 	solver := fs.String("solver", "z3", "z3 | z3-new | cvc5")
